@@ -194,7 +194,9 @@ class DataTypeParameter(StringParameter):
         self.valid_types = valid_types
 
     def clean(self, value, program=None, lineno=None):
-        if value in self.valid_types.values():
+        # An already cleaned value is one of the types themselves (comparing other values, e.g. NumPy scalars, with the
+        # NumPy type objects raises a TypeError)
+        if isinstance(value, type) and value in self.valid_types.values():
             return value
 
         try:
